@@ -499,10 +499,16 @@ func (i *Interpreter) ExecuteRoute(route *Route, request *Request) (*Response, e
 	// Create a new environment for the route
 	routeEnv := NewChildEnvironment(i.globalEnv)
 
-	// Extract path parameters
-	params, err := extractPathParams(route.Path, request.Path)
-	if err != nil {
-		return nil, err
+	// Path parameters: when the dispatcher already bound them (request.Params)
+	// use those bindings. Re-deriving them from request.Path cuts a value at a
+	// decoded "?" (a segment sent as %3F) and so disagrees with the router.
+	params := request.Params
+	if len(params) == 0 {
+		var err error
+		params, err = extractPathParams(route.Path, request.Path)
+		if err != nil {
+			return nil, err
+		}
 	}
 
 	// Add path parameters to environment
